@@ -81,6 +81,34 @@ def h_int_range(E):
     E.check('integer-draw-in-range-any-order', sand(near_le(lo, x), near_le(x, hi), isinstance(x, (int, SymInt))))
     if E.mode == 'sym':
         E.check('integer-endpoints-attainable', E.sat_witness('lo', x == lo) is True and E.sat_witness('hi', x == hi) is True)
+    else:
+        # concrete confirmation of the existential obligation: run the real sampler under EVERY outcome the randint contract allows
+        import mitxgraders.sampling as S
+
+        class EnumRandint:
+            def __init__(self):
+                self.k = 0
+                self.span = None
+
+            def randint(self, low, high=None):
+                self.span = (low, high)
+                v = low + self.k
+                self.k += 1
+                return v
+        er = EnumRandint()
+
+        class P:
+            random = er
+
+            def __getattr__(self, n):
+                return getattr(np, n)
+        seen = set()
+        with shadow(S, np=P()):
+            s2 = IntegerRange(start=a, stop=b)
+            seen.add(s2.gen_sample())
+            while er.k < er.span[1] - er.span[0]:
+                seen.add(s2.gen_sample())
+        E.check('integer-endpoints-attainable', min(a, b) in seen and max(a, b) in seen)
     return 'ok'
 
 
